@@ -168,6 +168,19 @@ let eval (op : string) (a : string list) : string =
      | PartsErr c -> "err:" ^ zs c
      | PartsOk [] -> "ok:."
      | PartsOk l -> "ok:" ^ fpartitions l)
+  | "rpq", [v6; ct; arg; th; cl; ctrl; bs; ts] ->
+    (* arg: "-" no argument / nil slice, "." empty non-nil slice, else the names *)
+    let arg = if arg = "-" then None else if arg = "." then Some [] else Some (List.map str_of (sp ',' arg)) in
+    let ct = str_of ct in
+    let wire = (match read_partitions_request ct arg with
+        | None -> "-"
+        | Some [] -> "."
+        | Some l -> String.concat "," (List.map s_of l)) in
+    "Q" ^ wire ^ " " ^
+    (match read_partitions_call (v6 = "1") ct arg (pmd th cl ctrl bs ts) with
+     | PartsErr c -> "err:" ^ zs c
+     | PartsOk [] -> "ok:."
+     | PartsOk l -> "ok:" ^ fpartitions l)
   | "of", [ulist; th; err; ts] ->
     let u = plist ';' (ptopic '+' zp) ulist in
     let q = (match offsetfetch_request u with
